@@ -21,6 +21,17 @@ def order_rules(ctx: Ctx) -> None:
     ctx.analysed(s)
     call = next((c for c in walk_local(s.node) if isinstance(c, ast.Call) and call_method(c)[1] == "sort"), None)
     key = next((k.value for k in call.keywords if k.arg == "key"), None) if call else None
+    if isinstance(key, (ast.Name, ast.Attribute)):
+        # a named key function of the class / module whose body is `return (<tuple>)`: the same thing as the lambda
+        nm = key.id if isinstance(key, ast.Name) else key.attr
+        kf = p.functions.get(f"{s.cls}.{nm}") or p.module_funcs.get(nm) if hasattr(p, "module_funcs") else p.functions.get(f"{s.cls}.{nm}")
+        if kf is not None:
+            body = [b for b in kf.node.body if not (isinstance(b, ast.Expr) and isinstance(b.value, ast.Constant) and isinstance(b.value.value, str))]
+            params = [a for a in kf.node.args.args if a.arg not in ("self", "cls")]
+            if len(body) == 1 and isinstance(body[0], ast.Return) and isinstance(body[0].value, ast.Tuple) and len(params) == 1:
+                key = ast.copy_location(ast.Lambda(args=ast.arguments(posonlyargs=[], args=[params[0]], vararg=None, kwonlyargs=[], kw_defaults=[], kwarg=None, defaults=[]),
+                                                   body=body[0].value), key)
+                ctx.analysed(kf)
     if not isinstance(key, ast.Lambda) or not isinstance(key.body, ast.Tuple):
         ctx.undetermined("ORDER", "AbsoluteSequence.sort key", "sort key is not a lambda returning a tuple: not judged")
     else:
